@@ -49,7 +49,7 @@ def run(chk, repo, tier):
     if setter is None:
         raise AnalysisError('Spectrum.wave has no setter')
     _, paths, _ = analyse(repo, setter)
-    val = S('value')
+    val = S(setter.params()[1][0]) if len(setter.params()) > 1 else S('value')      # whatever the setter calls its argument
     checks = {
         'positive': nf.app('any', nf.app('le', val, C(0))),
         'sorted': nf.app('not', nf.app('all', nf.app('eq', nf.app('sort', val), val))),
